@@ -77,6 +77,21 @@ def RawCRS.WF {V} (A : RawCRS V) : Prop :=
 instance {V} (A : RawCRS V) : Decidable A.PtrWF := by unfold RawCRS.PtrWF; infer_instance
 instance {V} (A : RawCRS V) : Decidable A.WF := by unfold RawCRS.WF; infer_instance
 
+/-- `ptr` array of consecutive rows with the given lengths, starting at offset `a` -/
+def ptrFrom (a : Int) : List Nat → List Int
+  | [] => [a]
+  | k :: t => a :: ptrFrom (a + k) t
+
+/-- the CRS arrays of a list of rows (each row a list of `(column, value)` in stored order) -/
+def RawCRS.ofRows {V} (nrows ncols : Nat) (rows : List (List (Int × V))) : RawCRS V :=
+  ⟨nrows, ncols, ptrFrom 0 (rows.map List.length), rows.flatten.map (·.1), rows.flatten.map (·.2)⟩
+
+/-- outcome predicate "throws, or returns something satisfying `P`; never out of bounds" -/
+def Outcome.Safe {α} (P : α → Prop) : Outcome α → Prop
+  | .ok a => P a
+  | .error => True
+  | .oob => False
+
 /-- a dense row-major array as `read_dense` / the dense `mm_reader` return it -/
 structure RawDense (V : Type) where
   nrows : Nat
